@@ -30,7 +30,8 @@ PROPERTY = "C10"
 RULE = ("text stream: every truncation of hand-written documents and of tests/fixtures (sampled for the two large ones), "
         "multi-line texts with LF/CR/CRLF and non-ASCII, malformed texts; request stream: generated schema + generated "
         "document (valid, or invalidated in one of 8 ways) + operation name + variable payload (ok/missing/null/wrong) + "
-        "resolver world (value/null/ResolverError with/without extensions per response path); non-trivial = distinct "
+        "resolver world (value/null/ResolverError with/without extensions per response path; fresh, subclass, SHARED instance or bogus-path errors); "
+        "execution-time argument coercion failures under lists of 2-4 items on all 4 configurations; non-trivial = distinct "
         "(text, operation name, variables, world) whose response has errors, or whose data has depth >= 2")
 ASSUMPTIONS = [
     "resolvers return values their field type can serialise, or raise the library's ResolverError; any other exception "
@@ -39,6 +40,7 @@ ASSUMPTIONS = [
     "lines of the submitted text are delimited by the spec's LineTerminator (LF | CR | CRLF)",
 ]
 TRUSTED = [
+    "error objects are values in the Lean model: sharing/mutation of one exception object between registrations (X6, cached coercion failures) is exercised by the oracle (null sites computed without looking at the errors) and the correspondence, not proved",
     "highlight_location (the text after the message of a syntax error) is opaque in the model: only its totality for positions <= len is exercised",
     "stage outcomes (error positions, paths, extensions, data) are observed through the real stage functions; scalar serialisers are exercised, not modelled",
 ]
